@@ -426,8 +426,8 @@ func checkHostMutex(c *Check) {
 		nCallers := 0
 		var visit func(f *ssa.Function, depth int) bool
 		visit = func(f *ssa.Function, depth int) bool {
-			if lockers[f] {
-				return true
+			if lockers[f] || f.Name() == "sendLoop" || f.Name() == "recvLoop" {
+				return true // a locker, or one of the two transport goroutines (each owns one direction of the socket)
 			}
 			if depth == 0 {
 				return false
